@@ -426,10 +426,12 @@ func init() {
 		ID:        "C08",
 		Level:     "exploration",
 		Technique: "bounded-exhaustive enumeration of control-service inputs through the real RunControlSession/Workceptor (synctest bubble, in-memory connection), each followed by liveness probes on the same and on fresh sessions; reference grammar decides where an ERROR reply is required",
-		Rule: "plain-text forms of every command word with 0..3 (thorough 4) tokens; for every built-in command and work sub-command every field absent or replaced by 10 JSON value kinds; the command field itself of every kind; truncated/trailing/deep/huge JSON; unit IDs {unknown, ., .., a/b, ../n1, empty, 5000 bytes, format verbs, NUL} x 6 sub-commands; binary junk, 1 MiB line, unterminated line + EOF, disconnect after every 7th (thorough: every) prefix of a submit; unit directories that exist only on disk (good / unknown work type / no status file / corrupt status) x 5 sub-commands; all ordered pairs of class representatives on one session. " +
+		Rule: "plain-text forms of every command word with 0..3 (thorough 4) tokens; for every built-in command and work sub-command every field absent or replaced by 10 JSON value kinds; the command field itself of every kind; truncated/trailing/deep/huge JSON; unit IDs {unknown, ., .., a/b, ../n1, empty, 5000 bytes, format verbs, NUL} x 6 sub-commands; binary junk, 1 MiB line, unterminated line + EOF, disconnect after every 7th (thorough: every) prefix of a submit; unit directories that exist only on disk (good / unknown work type / no status file / corrupt status) x 5 sub-commands; all ordered pairs of class representatives on one session; two (thorough: twelve) representatives of every input class also against the real daemon over its real Unix control socket. " +
 			"All cases are distinct inputs and non-trivial (they reach the real parser). Oracle: process alive; ERROR reply where the reference grammar says invalid; `status` answered on the same session; `status` and `work list` answered on fresh sessions.",
 		Assumptions: []string{"wrongly typed optional fields may be ignored or refused (only liveness is checked for them)", "a reply that does not arrive within 90 virtual seconds counts as missing; a frozen bubble (lock wait) is detected by the real-time watchdog"},
 		Run:         runC08,
+		Exec:        execC08,
+		Coord:       coordC08,
 		CaseTimeout: 45 * time.Second,
 	})
 }
